@@ -100,6 +100,15 @@ def loopState (limit : Nat) : Nat → Nat × Nat
     let p := loopState limit j
     if p.2 > 0 then (p.1, p.2 - 1) else (p.1 + batch limit, batch limit - 1)
 
+/-- capacity of the protocol engine's send queue: `p.sendQueueChan = make(chan outboundMessage, 80)`
+    (protocol/protocol.go, Protocol.Start) -/
+def sendQueueCap : Nat := 80
+
+/-- `Client.Stop` enqueues MsgDone behind the RequestNext messages still waiting in the send
+    queue (`queued` of them); `SendMessage` blocks while the queue is full and nothing else
+    wakes it as long as the server stays silent and connected -/
+def doneFits (queued : Nat) : Bool := decide (queued < sendQueueCap)
+
 /-- number of messages up to and including the first one whose callback asks to stop -/
 def liveSignals : List Msg → Nat
   | [] => 0
